@@ -388,6 +388,70 @@ pub fn tail_binding_family() -> Vec<(String, Vec<Form>)> {
     out
 }
 
+/// let* scopes (each binding in a scope of its own, a body with definitions in one more) and flat derived forms with
+/// several hundred sub-forms
+pub fn scope_and_size_family() -> Vec<(String, Vec<Form>)> {
+    let lam0 = |e: Expr| Expr::Lambda(Formals { fixed: vec![], rest: None }, body1(e));
+    let kw = |s: &str| Expr::Quote(Datum::Sym(s.to_string()));
+    let call = |f: &str| app(f, vec![]);
+    let mut out: Vec<(String, Vec<Form>)> = vec![];
+    out.push((
+        "let*: a closure made by an earlier initialiser does not see a later binding".into(),
+        vec![
+            Form::Define(Def { name: "b".into(), value: kw("outer"), sugar: false }),
+            Form::Expr(Expr::LetStar(vec![("f".into(), lam0(var("b"))), ("b".into(), kw("inner"))], body1(app("list", vec![call("f"), var("b")])))),
+        ],
+    ));
+    out.push((
+        "let*: rebinding a name leaves the variable an earlier closure captured".into(),
+        vec![Form::Expr(Expr::LetStar(
+            vec![("n".into(), Expr::Int(1)), ("get".into(), lam0(var("n"))), ("bump".into(), lam0(Expr::Set("n".into(), Box::new(app("+", vec![var("n"), Expr::Int(1)]))))), ("n".into(), app("+", vec![var("n"), Expr::Int(100)]))],
+            Box::new(Body { defs: vec![], exprs: vec![call("bump"), app("list", vec![var("n"), call("get")])] }),
+        ))],
+    ));
+    out.push((
+        "let*: a definition at the head of the body shadows the let* variable".into(),
+        vec![Form::Expr(Expr::LetStar(
+            vec![("v".into(), Expr::Int(5)), ("get".into(), lam0(var("v")))],
+            Box::new(Body { defs: vec![Def { name: "v".into(), value: Expr::Int(6), sugar: false }], exprs: vec![app("list", vec![call("get"), var("v")])] }),
+        ))],
+    ));
+    out.push((
+        "let: a definition at the head of the body shadows a let variable captured by an initialiser of an inner let".into(),
+        vec![Form::Expr(Expr::Let(
+            vec![("v".into(), Expr::Int(5))],
+            body1(Expr::Let(
+                vec![("get".into(), lam0(var("v")))],
+                Box::new(Body { defs: vec![Def { name: "v".into(), value: Expr::Int(6), sugar: false }], exprs: vec![app("list", vec![call("get"), var("v")])] }),
+            )),
+        ))],
+    ));
+    for n in [257usize, 258, 300, 700] {
+        let ints = |n: usize| (1..=n as i32).map(Expr::Int).collect::<Vec<_>>();
+        let mut seq = ints(n);
+        seq.insert(n / 2, Expr::Tick(1, Box::new(Expr::Int(0))));
+        seq.push(Expr::Tick(2, Box::new(Expr::Int(n as i32))));
+        out.push((format!("begin with {} forms", n + 2), vec![Form::Expr(Expr::Begin(seq.clone()))]));
+        out.push((format!("when with {} body forms", n + 2), vec![Form::Expr(Expr::When(Box::new(Expr::Bool(true)), seq.clone()))]));
+        out.push((format!("unless with {} body forms", n + 2), vec![Form::Expr(Expr::Unless(Box::new(Expr::Bool(false)), seq.clone()))]));
+        out.push((format!("cond clause with {} body forms", n + 2), vec![Form::Expr(Expr::Cond(vec![Clause::Then(Expr::Bool(true), seq.clone())], None))]));
+        out.push((format!("let body with {} forms", n + 2), vec![Form::Expr(Expr::Let(vec![("q".into(), Expr::Int(1))], Box::new(Body { defs: vec![], exprs: seq.clone() })))]));
+        let bindings: Vec<(String, Expr)> = (1..=n).map(|i| (format!("v{}", i), Expr::Int(i as i32))).collect();
+        out.push((
+            format!("let with {} bindings", n),
+            vec![Form::Expr(Expr::Let(bindings, body1(app("list", vec![var("v1"), var(&format!("v{}", n / 2)), var(&format!("v{}", n))]))))],
+        ));
+        let data: Vec<Datum> = (1..=n as i32).map(Datum::Int).collect();
+        for key in [1, n as i32 / 2, n as i32, n as i32 + 1] {
+            out.push((
+                format!("case clause with {} data, key {}", n, key),
+                vec![Form::Expr(Expr::Case(Box::new(Expr::Int(key)), vec![(data.clone(), CaseBody::Exprs(vec![kw("listed")]))], Some(CaseBody::Exprs(vec![kw("other")]))))],
+            ));
+        }
+    }
+    out
+}
+
 pub fn pair_family() -> Vec<(String, Vec<Form>)> {
     let mut out = vec![];
     let mut k = 0;
@@ -453,10 +517,12 @@ pub fn run(ctx: &Ctx) {
         judge(forms, &mut rep);
         Some(rep)
     });
-    for (sub, fam) in [("cond-shapes", cond_shapes()), ("case-shapes", case_shapes()), ("tail-binding-forms", tail_binding_family())] {
+    for (sub, fam) in [("cond-shapes", cond_shapes()), ("case-shapes", case_shapes()), ("tail-binding-forms", tail_binding_family()), ("scopes-and-large-forms", scope_and_size_family())] {
         ctx.indexed(sub, fam.len() as u64, 1, |i| {
             let (name, forms) = &fam[i as usize];
-            let mut rep = Report::new(format!("{} :: {}", name, program_text(forms)));
+            let mut text = program_text(forms);
+            crate::sut::truncate_chars(&mut text, 600);
+            let mut rep = Report::new(format!("{} :: {}", name, text));
             rep.nontrivial = true;
             judge(forms, &mut rep);
             Some(rep)
